@@ -106,7 +106,8 @@ def gibbs_save_load_continue(h, cls, d, hist, limits):
     gb, a, post, T_, pts = mc.make_metropolis_like(h, cls, d, ev, hist=hist, max_draws=None)
     h.covers(gb.MetropolisChain.save, gb.MetropolisChain.load, gb.Parameter.get_items, gb.Parameter.load)
     if limits:
-        lo = h.real("lim_lo")
+        lo = h.real("lim_lo", nonneg=True)
+        a.set_non_negative(0)  # both kinds of limit on the same parameter
         a.set_boundaries(0, (lo, lo + h.real("lim_w", pos=True)))
         if d > 1:
             a.set_non_negative(1)
@@ -125,6 +126,7 @@ def gibbs_save_load_continue(h, cls, d, hist, limits):
             h.eq(f"loaded: proposal width {i}", q.sigma, p.sigma)
             h.eq(f"loaded: tuning statistics {i}", np.array([q.avg, q.var, q.num], dtype=object), np.array([p.avg, p.var, p.num], dtype=object))
             h.same(f"loaded: limits flags {i}", (bool(q.bounded), bool(q.non_negative)), (bool(p.bounded), bool(p.non_negative)))
+            h.same(f"loaded: active proposal kind {i}", q.proposal.__name__, p.proposal.__name__)
             if p.bounded:
                 h.eq(f"loaded: boundaries {i}", np.array([q.lower, q.upper], dtype=object), np.array([p.lower, p.upper], dtype=object))
         # identical continuation under identical random draws
